@@ -1228,6 +1228,8 @@ fn run_case(env: &Env, idx: &str, kind: &str, variant: &str, max: usize, seq: &[
 struct BcNode {
     name: String,
     tags: Vec<String>,
+    /// empty = healthy; otherwise one of: all `refused`, all `silent`, or replies (`apperr`/`success`)
+    script: Vec<Beh>,
     down: bool,
 }
 
@@ -1240,10 +1242,14 @@ fn parse_bc_nodes(s: &str) -> Option<Vec<BcNode>> {
         }
         let tags = f[1].split('+').filter(|x| !x.is_empty()).map(|x| x.to_string()).collect();
         let bs = parse_seq(f[2])?;
-        if !bs.iter().all(|b| *b == Beh::Refused) {
+        // scripts whose every element yields the same class whatever the timing: the node never has
+        // to answer within the short timeout that the silent nodes get
+        let uniform = |b: Beh| bs.iter().all(|x| *x == b);
+        if !(bs.is_empty() || uniform(Beh::Refused) || uniform(Beh::Silent) || bs.iter().all(|b| matches!(b, Beh::AppErr | Beh::Success))) {
             return None;
         }
-        v.push(BcNode { name: f[0].to_string(), tags, down: !bs.is_empty() });
+        let down = !bs.is_empty() && uniform(Beh::Refused);
+        v.push(BcNode { name: f[0].to_string(), tags, script: bs, down });
     }
     Some(v)
 }
@@ -1263,7 +1269,7 @@ fn run_bc(env: &Env, idx: &str, kind: &str, max: usize, nodes: &[BcNode], req: &
     }
     let mut live = vec![];
     for n in nodes {
-        let script = if n.down { vec![Beh::Refused; max] } else { vec![] };
+        let script = n.script.clone();
         match Node::new(script, env.sniffer.clone()) {
             Ok(x) => live.push(x),
             Err(e) => {
@@ -1276,7 +1282,9 @@ fn run_bc(env: &Env, idx: &str, kind: &str, max: usize, nodes: &[BcNode], req: &
         .iter()
         .zip(&live)
         .map(|(n, x)| {
-            NodeConfig::new(node_host(), x.port()).unwrap().with_name(n.name.clone()).unwrap().with_tags(n.tags.clone()).with_timeout(T_BCAST).unwrap()
+            // the per-node timeout: short for a node that never answers, generous for the others
+            let t = if n.script.contains(&Beh::Silent) { T_NODE } else { T_BCAST };
+            NodeConfig::new(node_host(), x.port()).unwrap().with_name(n.name.clone()).unwrap().with_tags(n.tags.clone()).with_timeout(t).unwrap()
         })
         .collect();
     let fleet = AnyFleet::new(kind, configs, max, Duration::from_millis(10));
@@ -1354,7 +1362,7 @@ fn run_bc(env: &Env, idx: &str, kind: &str, max: usize, nodes: &[BcNode], req: &
         dash(addressed.clone()),
         dash(results.iter().map(|(k, v)| format!("{k}={v}")).collect())
     ));
-    out.nontrivial = !expect.is_empty() && expect.len() < nodes.len() || nodes.iter().any(|n| n.down);
+    out.nontrivial = !expect.is_empty() && expect.len() < nodes.len() || nodes.iter().any(|n| !n.script.is_empty());
     out.counters.push(format!("bc.{k}.nodes{}.targets{}", nodes.len(), expect.len()));
     out
 }
@@ -1451,12 +1459,26 @@ fn gen_cases(rng: &mut Rng, thorough: bool) -> Vec<String> {
                     m += 1;
                     let kind = if m % 2 == 0 { "b" } else { "a" };
                     let max = 1 + m % 2;
-                    let down = if m % 7 == 0 { Some(m % nn) } else { None };
+                    // every 7th broadcast has a refusing node, every 5th a node that is silent on every
+                    // attempt (it is addressed and must still get its one result entry), every 11th a
+                    // node that answers with an application error
+                    let special: Option<(usize, String)> = if m % 7 == 0 {
+                        Some((m % nn, vec!["refused"; max].join(",")))
+                    } else if m % 5 == 0 {
+                        Some((m % nn, vec!["silent"; max].join(",")))
+                    } else if m % 11 == 0 {
+                        Some((m % nn, "apperr".to_string()))
+                    } else {
+                        None
+                    };
                     let nodes: Vec<String> = tagsets
                         .iter()
                         .enumerate()
                         .map(|(i, t)| {
-                            let bs = if down == Some(i) { vec!["refused"; max].join(",") } else { "-".to_string() };
+                            let bs = match &special {
+                                Some((j, b)) if *j == i => b.clone(),
+                                _ => "-".to_string(),
+                            };
                             format!("n{i}={t}={bs}")
                         })
                         .collect();
